@@ -3,6 +3,7 @@
 // When SPECTRA_VERIF_SIM is defined, a verification harness provides the header
 // <spectra_verif_sim.h> on its include path, which defines
 //     SPECTRA_VERIF_EVENT(kind, obj)
+//     SPECTRA_VERIF_EVENT_N(kind, obj, n)
 // Without the define the macro expands to nothing and the library is unchanged.
 
 #ifndef SPECTRA_VERIF_HOOK_H
@@ -14,6 +15,10 @@
 
 #ifndef SPECTRA_VERIF_EVENT
 #define SPECTRA_VERIF_EVENT(kind, obj) ((void) 0)
+#endif
+
+#ifndef SPECTRA_VERIF_EVENT_N
+#define SPECTRA_VERIF_EVENT_N(kind, obj, n) ((void) 0)
 #endif
 
 #endif  // SPECTRA_VERIF_HOOK_H
